@@ -528,6 +528,8 @@ func checkC17(c *Ctx, r *Report) {
 	}
 	// API returns Err() after Done: the publish function's returns after the select are Err() or group.Wait()
 	c.checkAPIReturnsErr(r, "R1", publishFn)
+	// R6: an inbound PUBLISH never disturbs the client's own exchange stored under the same message ID
+	c.checkClientQoS2Receive(r, "R6", m)
 	// R2
 	c.checkRetryCallbacks(r, "R2", "client", m.snSenders)
 	// R3: PUBREL always answered
@@ -818,6 +820,7 @@ func checkC16(c *Ctx, r *Report) {
 		}
 		r.cond(okc, "R5", key, c.pos(cm.snDisp.Pos()), firstOutcome(outs), "the client swallows a (retransmitted) PUBREL without PUBCOMP: the gateway can never complete the QoS 2 exchange")
 	}
+	c.checkClientQoS2Receive(r, "R5", cm)
 	// R7: the REGISTER step survives a lost REGACK: the gateway retransmits the same (name, ID) pair and the
 	// client must accept it again (explored with a symbolic registered-topics lookup)
 	for _, sc := range []struct {
@@ -936,4 +939,54 @@ func (c *Ctx) functionHasParam(f *ssa.Function, pkgpath, tname string) bool {
 		}
 	}
 	return false
+}
+
+// checkClientQoS2Receive: the client's handling of an inbound QoS 2 PUBLISH,
+// explored per (what is stored under its message ID, DUP flag). (a) With
+// nothing stored - whatever the DUP flag: the first copy the client sees may
+// already be a retransmission - a receive transaction is created and stored
+// before the PUBREC leaves, otherwise the exchange completes without the
+// handler ever running. (b) With the receive transaction stored, no second one
+// is created. (c) With a transaction of another kind stored (the client's own
+// exchange under the same ID) nothing is stored: the client's exchange must
+// not be evicted.
+func (c *Ctx) checkClientQoS2Receive(r *Report, rule string, cm *gwModel) {
+	for _, tx := range []string{"none", "*client.brokerPublishQOS2Transaction", "*client.publishQOS1Transaction", "*client.publishQOS2Transaction", "*client.subscribeTransaction"} {
+		for _, dup := range []int64{0, 1} {
+			e := cm.clientExplorer()
+			outs := e.Explore(cm.snDisp, map[string]aval{"type:sn": kstr("*packets1.Publish"), "type:tx": kstr(tx), "f:packets1.Publish.QOS": kint(2),
+				"f:packets.DUPProperty.dup": kint(dup), "f:packets1.Publish.TopicIDType": kint(2)}, nil)
+			key := fmt.Sprintf("client-PUBLISH-QoS2[stored=%s,dup=%d]", strings.TrimPrefix(tx, "*client."), dup)
+			okc := len(outs) > 0
+			detail := ""
+			for _, o := range outs {
+				stored, rec := false, false
+				storeBeforeRec := false
+				for _, ev := range o.Events {
+					if strings.HasPrefix(ev, "store.Store") {
+						stored = true
+					}
+					if strings.HasPrefix(ev, "sn:") && strings.Contains(ev, "Pubrec") {
+						rec = true
+						storeBeforeRec = stored
+					}
+				}
+				switch {
+				case tx == "none" && rec && !storeBeforeRec:
+					okc, detail = false, "a QoS 2 PUBLISH under a free message ID is acknowledged with PUBREC although no receive transaction was stored: PUBREL is then answered by the 'already finished' fallback and the subscription's handler never runs (when the first copy was lost this is the only copy the client sees): "+strings.Join(o.Events, " ; ")
+				case tx == "*client.brokerPublishQOS2Transaction" && stored:
+					okc, detail = false, "a retransmitted QoS 2 PUBLISH creates a second receive transaction: "+strings.Join(o.Events, " ; ")
+				case tx != "none" && tx != "*client.brokerPublishQOS2Transaction" && stored:
+					okc, detail = false, "an inbound QoS 2 PUBLISH replaces the transaction of another kind stored under its message ID (the client's own exchange in flight): its acknowledgement is then dropped and the API call fails although the gateway acknowledged in time: "+strings.Join(o.Events, " ; ")
+				}
+			}
+			if okc {
+				r.ok(rule, key, c.pos(cm.snDisp.Pos()), firstOutcome(outs))
+			} else if detail == "" {
+				r.undecided(rule, key, c.pos(cm.snDisp.Pos()), "no outcome explored")
+			} else {
+				r.bad(rule, key, c.pos(cm.snDisp.Pos()), detail)
+			}
+		}
+	}
 }
